@@ -287,12 +287,25 @@ impl Decoder for Codec {
                     OpCode::Pong => Ok(Some(Frame::Pong(
                         payload.map(|pl| pl.freeze()).unwrap_or_else(Bytes::new),
                     ))),
-                    OpCode::Binary => Ok(Some(Frame::Binary(
-                        payload.map(|pl| pl.freeze()).unwrap_or_else(Bytes::new),
-                    ))),
-                    OpCode::Text => Ok(Some(Frame::Text(
-                        payload.map(|pl| pl.freeze()).unwrap_or_else(Bytes::new),
-                    ))),
+                    // a new data message must not start inside a fragmented message (RFC 6455 §5.4)
+                    OpCode::Binary => {
+                        if !self.flags.contains(Flags::CONTINUATION) {
+                            Ok(Some(Frame::Binary(
+                                payload.map(|pl| pl.freeze()).unwrap_or_else(Bytes::new),
+                            )))
+                        } else {
+                            Err(ProtocolError::ContinuationStarted)
+                        }
+                    }
+                    OpCode::Text => {
+                        if !self.flags.contains(Flags::CONTINUATION) {
+                            Ok(Some(Frame::Text(
+                                payload.map(|pl| pl.freeze()).unwrap_or_else(Bytes::new),
+                            )))
+                        } else {
+                            Err(ProtocolError::ContinuationStarted)
+                        }
+                    }
                 }
             }
             Ok(None) => Ok(None),
